@@ -41,18 +41,30 @@ import (
 // c08Srv is a miniredis with a counting / fault-injecting pre-hook.
 type c08Srv struct {
 	mr       *miniredis.Miniredis
+	owner    string       // substring of every key the owning scenario(s) use
 	evals    atomic.Int64 // EVAL/EVALSHA commands let through to execution
 	pings    atomic.Int64
 	rejected atomic.Int64 // commands answered with the injected error
 	errMode  atomic.Bool
 }
 
-func newC08Srv() (*c08Srv, error) {
+// c08Foreign records limiter keys whose EVAL arrived at a server of another
+// scenario. That happens when a closed miniredis' port is handed by the kernel
+// to a server started meanwhile by a parallel scenario; the misrouted scenario
+// must not be judged (its "outage" is not one).
+var c08Foreign sync.Map
+
+func c08Misrouted(owner string) bool {
+	_, hit := c08Foreign.Load(owner)
+	return hit
+}
+
+func newC08Srv(owner string) (*c08Srv, error) {
 	mr, err := miniredis.Run()
 	if err != nil {
 		return nil, err
 	}
-	s := &c08Srv{mr: mr}
+	s := &c08Srv{mr: mr, owner: owner}
 	s.install()
 	return s, nil
 }
@@ -60,6 +72,15 @@ func newC08Srv() (*c08Srv, error) {
 // install (re)attaches the hook; Restart creates a new server object.
 func (s *c08Srv) install() {
 	s.mr.Server().SetPreHook(func(c *server.Peer, cmd string, args ...string) bool {
+		if (cmd == "EVAL" || cmd == "EVALSHA") && len(args) >= 3 && !strings.Contains(args[2], s.owner) {
+			// not ours: remember whose it is, let it run (its keys are disjoint from ours), do not count it
+			k := args[2]
+			if i, j := strings.Index(k, "{"), strings.Index(k, "}"); i >= 0 && j > i {
+				k = k[i+1 : j]
+			}
+			c08Foreign.Store(k, true)
+			return false
+		}
 		if s.errMode.Load() {
 			s.rejected.Add(1)
 			c.WriteError("ERR c08 injected failure")
@@ -282,7 +303,7 @@ func runC08TokenSeq(m *vk.M, idx int, sc c08TScenario, srv *c08Srv, store *redis
 	refs := make([]*c08Bucket, len(sc.Lims))
 	adms := make([][]c08Adm, len(sc.Lims))
 	for i, l := range sc.Lims {
-		lims[i] = NewTokenLimiter(int(l.Rate), int(l.Burst), store, fmt.Sprintf("c08t%d-%d", idx, i))
+		lims[i] = NewTokenLimiter(int(l.Rate), int(l.Burst), store, fmt.Sprintf("c08s%d-%d", idx, i))
 		refs[i] = &c08Bucket{rate: l.Rate, burst: l.Burst}
 	}
 	clock := time.Unix(sc.Base, sc.BaseNs)
@@ -383,7 +404,7 @@ func TestVerifC08TokenSeq(t *testing.T) {
 		wg.Add(1)
 		go func() {
 			defer wg.Done()
-			srv, err := newC08Srv()
+			srv, err := newC08Srv("{c08s")
 			if err != nil {
 				m.Inconclusive("miniredis: %v", err)
 				return
@@ -477,6 +498,7 @@ const (
 )
 
 type c08ORun struct {
+	key    string
 	m      *vk.M
 	idx    int
 	sc     c08OScenario
@@ -492,6 +514,8 @@ type c08ORun struct {
 	obs    strings.Builder
 	nresc  int
 	nredis int
+
+	misrouted bool
 }
 
 func (x *c08ORun) advance(ms int64) {
@@ -503,10 +527,21 @@ func (x *c08ORun) advance(ms int64) {
 	x.srv.mr.FastForward(d)
 }
 
+// call returns evals = -1 when the limiter's command went to a foreign server
+// (port reuse, see c08Foreign): the scenario is then abandoned without verdict.
 func (x *c08ORun) call(n int64) (granted bool, evals int64) {
 	e0 := x.srv.evals.Load()
 	g := x.tl.AllowN(x.clock, int(n))
-	return g, x.srv.evals.Load() - e0
+	e := x.srv.evals.Load() - e0
+	if c08Misrouted(x.key) {
+		if !x.misrouted {
+			x.misrouted = true
+			x.m.Count("outage.abandoned-port-reuse", 1)
+			x.m.Note("case %d: the limiter's EVAL reached another scenario's server (port reused while closed); scenario abandoned", x.idx)
+		}
+		return g, -1
+	}
+	return g, e
 }
 
 // twoSided: a denial by the fallback is judged only for a real outage (server
@@ -601,6 +636,9 @@ func (x *c08ORun) waitReturn() (ok bool) {
 	for {
 		g, e := x.call(1)
 		calls++
+		if e < 0 {
+			return false
+		}
 		if e == 1 {
 			x.seg.active = false
 			ms := time.Since(start).Milliseconds()
@@ -677,6 +715,8 @@ func (x *c08ORun) up(calls []c08Call, phase string) bool {
 				return false
 			}
 			x.resync()
+		case e < 0:
+			return false
 		default:
 			x.m.Count("outage.eval-duplicated", 1)
 			return false
@@ -695,14 +735,15 @@ func runC08Outage(m *vk.M, idx int, sc c08OScenario) {
 		return
 	}
 	x := &c08ORun{m: m, idx: idx, sc: sc, desc: fmt.Sprintf("case=%d;%s", idx, vk.JSON(sc))}
-	srv, err := newC08Srv()
+	x.key = fmt.Sprintf("c08o%d", idx)
+	srv, err := newC08Srv("{" + x.key + "}")
 	if err != nil {
 		m.Inconclusive("miniredis: %v", err)
 		return
 	}
 	defer srv.mr.Close()
 	x.srv = srv
-	x.tl = NewTokenLimiter(int(sc.Rate), int(sc.Burst), redis.New(srv.mr.Addr()), fmt.Sprintf("c08o%d", idx))
+	x.tl = NewTokenLimiter(int(sc.Rate), int(sc.Burst), redis.New(srv.mr.Addr()), x.key)
 	x.clock = time.Unix(sc.Base, sc.BaseNs)
 	x.ref = c08Bucket{rate: sc.Rate, burst: sc.Burst}
 	x.whole = sc.BaseNs == 0
@@ -723,6 +764,9 @@ func runC08Outage(m *vk.M, idx int, sc c08OScenario) {
 		for ci, c := range o.Down {
 			x.advance(c.Adv)
 			g, e := x.call(c.N)
+			if e < 0 {
+				return
+			}
 			if e != 0 {
 				m.Inconclusive("case %d: server executed an EVAL while the fault %s was active", idx, o.Fault)
 				return
@@ -839,13 +883,14 @@ func runC08TokenRace(m *vk.M, idx, G int) {
 		fault = "error"
 	}
 	desc := fmt.Sprintf("case=%d;{\"rate\":%d,\"burst\":%d,\"goroutines\":%d,\"calls_each\":%d,\"fault\":%q}", idx, rate, burst, G, per, fault)
-	srv, err := newC08Srv()
+	key := fmt.Sprintf("c08tr%d", idx)
+	srv, err := newC08Srv("{" + key + "}")
 	if err != nil {
 		m.Inconclusive("miniredis: %v", err)
 		return
 	}
 	defer srv.mr.Close()
-	tl := NewTokenLimiter(int(rate), int(burst), redis.New(srv.mr.Addr()), fmt.Sprintf("c08tr%d", idx))
+	tl := NewTokenLimiter(int(rate), int(burst), redis.New(srv.mr.Addr()), key)
 	clock := time.Unix(1_600_000_000+int64(r.Intn(1000000)), 0)
 	advance := func(sec int64) {
 		d := time.Duration(sec) * time.Second
@@ -885,7 +930,16 @@ func runC08TokenRace(m *vk.M, idx, G int) {
 		}
 		close(gate)
 		wg.Wait()
+		if c08Misrouted(key) {
+			return nil, -1
+		}
 		return res, srv.evals.Load() - e0
+	}
+	misrouted := func(e int64) bool {
+		if e < 0 {
+			m.Count("race.abandoned-port-reuse", 1)
+		}
+		return e < 0
 	}
 	level := burst // reference level of the Redis bucket at the current second
 	rounds, exactRounds, denied := 0, 0, 0
@@ -925,6 +979,9 @@ func runC08TokenRace(m *vk.M, idx, G int) {
 				level = burst
 			}
 			res, e := round(r.Intn(2) == 0)
+			if misrouted(e) {
+				return false
+			}
 			rounds++
 			m.Count("race.allowN", int64(len(res)))
 			for _, x := range res {
@@ -965,6 +1022,9 @@ func runC08TokenRace(m *vk.M, idx, G int) {
 			advance([]int64{0, 1, 2}[r.Intn(3)])
 		}
 		res, e := round(r.Intn(2) == 0)
+		if misrouted(e) {
+			return
+		}
 		rounds++
 		m.Count("race.allowN-during-outage", int64(len(res)))
 		if e != 0 {
@@ -1000,7 +1060,10 @@ func runC08TokenRace(m *vk.M, idx, G int) {
 	e0 := srv.evals.Load()
 	polls := 0
 	for srv.evals.Load() == e0 {
-		res, _ := round(true)
+		res, e := round(true)
+		if misrouted(e) {
+			return
+		}
 		polls += len(res)
 		if el := time.Since(start); el > c08ReturnDeadline && polls >= 100 && srv.evals.Load() == e0 {
 			if !c08Alive(srv.mr.Addr()) {
